@@ -303,23 +303,27 @@ def leg_cleantol(run, tier, clean_composite_curve, rnd):
         curve = case["curve"]
         c2 = scales[(ci + seed()) % 3]
         a = 100.0 if ci % 2 else 0.0
-        ys = [a + U_TOL * p[1] for p in curve]; xs = [c2 * p[0] for p in curve]
-        run.cov["evaluations"] += 1
-        run.cov["traces_validated_against_impl"] += 1
-        try:
-            ry, rx = clean_composite_curve(ys, xs)
-        except Exception as e:
-            run.violation("C17.clean_raises", dict(curve=curve, c=c2), dict(exc=repr(e)[:200])); continue
-        kept = _kept_indices(ys, list(ry))
-        if kept is None:
-            run.violation("C17.clean_original_order", dict(curve=curve, c=c2, a=a), dict(reason="a returned point is not an input point", T=[float(v) for v in ry])); continue
-        if kept != case["kept"]:
-            n_mismatch += 1
-            if n_mismatch <= 20:
-                run.drift.append(f"clean_composite_curve keeps {kept}, spec/CleanTol.tla {case['kept']} on {curve} (x scale {c2})")
-        # the specification's own result is judged by the invariant; a real result is sent to the judge when it differs, plus a sample
-        if kept != case["kept"] or ci % 40 == seed() % 40:
-            events.append(dict(id=f"ct|{ci}|{c2}", curve=curve, kept=kept, c=c2, a=a))
+        # the enthalpy axis may also carry an offset (a cold composite curve starts at the cold utility target, a cumulative column
+        # of a large site at thousands of kW): "flat" and "collinear" are statements about differences, so neither the unit nor the
+        # origin may matter.  Offset 2e5 units: a RELATIVE comparison at 1e-5 would call everything within 2 units of an end flat.
+        for off in ((0.0, 2e5 * c2) if ci % 2 == 0 else (0.0,)):
+            ys = [a + U_TOL * p[1] for p in curve]; xs = [off + c2 * p[0] for p in curve]
+            run.cov["evaluations"] += 1
+            run.cov["traces_validated_against_impl"] += 1
+            try:
+                ry, rx = clean_composite_curve(ys, xs)
+            except Exception as e:
+                run.violation("C17.clean_raises", dict(curve=curve, c=c2, off=off), dict(exc=repr(e)[:200])); continue
+            kept = _kept_indices(ys, list(ry))
+            if kept is None:
+                run.violation("C17.clean_original_order", dict(curve=curve, c=c2, a=a, off=off), dict(reason="a returned point is not an input point", T=[float(v) for v in ry])); continue
+            if kept != case["kept"]:
+                n_mismatch += 1
+                if n_mismatch <= 20:
+                    run.drift.append(f"clean_composite_curve keeps {kept}, spec/CleanTol.tla {case['kept']} on {curve} (x scale {c2}, offset {off})")
+            # the specification's own result is judged by the invariant; a real result is sent to the judge when it differs, plus a sample
+            if kept != case["kept"] or ci % 40 == seed() % 40:
+                events.append(dict(id=f"ct|{ci}|{c2}|{off}", curve=curve, kept=kept, c=c2, a=a, off=off))
     for rec in long_curves(tier, rnd):
         curve = rec["curve"]
         for c2 in scales:
